@@ -32,6 +32,7 @@ type Transaction struct {
 	// A commit was attempted and failed: the manifest may already hold the
 	// record that refers to the tables of this transaction.
 	commitFailed bool
+	failedGen    int // manifest generation at the failed commit
 }
 
 // Get gets the value for the given key. It returns ErrNotFound if the
@@ -223,6 +224,7 @@ func (tr *Transaction) Commit() error {
 				case <-tr.db.closeC:
 					tr.db.logf("transaction@commit exiting")
 					tr.commitFailed = true
+					tr.failedGen = tr.db.s.getManifestGen()
 					tr.db.setSeq(tr.seq)
 					tr.db.compCommitLk.Unlock()
 					return cerr
@@ -238,6 +240,7 @@ func (tr *Transaction) Commit() error {
 			// Return error, lets user decide either to retry or discard
 			// transaction.
 			tr.commitFailed = true
+			tr.failedGen = tr.db.s.getManifestGen()
 			// Never reuse the sequence numbers of the transaction, its
 			// tables may become live at the next Open.
 			tr.db.setSeq(tr.seq)
@@ -262,11 +265,12 @@ func (tr *Transaction) Commit() error {
 }
 
 func (tr *Transaction) discard() {
-	if tr.commitFailed {
+	if tr.commitFailed && tr.db.s.keepOrphanTables(tr.failedGen, tr.tables) {
 		// The record of the failed commit may have reached the manifest
 		// (e.g. it was written but could not be synced), in which case the
-		// next Open treats the tables as live: they must stay. If it did
-		// not, the next Open removes them as unreferenced files.
+		// next Open treats the tables as live: they must stay for as long
+		// as that manifest is in use. They are removed when the next
+		// manifest is started, or by the next Open.
 		tr.db.logf("transaction@discard keeping N·%d tables of failed commit", len(tr.tables))
 		return
 	}
